@@ -98,7 +98,9 @@ func truncation(limited, base []vcommon.Event, lastOK int64, swallow bool, owner
 		if e.Tag == "'form" {
 			return fmt.Sprintf("a later top-level form started after the limit tripped:\n%s", render(post, -1))
 		}
-		if o, ok := owner[e.Tag]; ok && o != started {
+		// effects written in EARLIER forms are fine (a function defined there
+		// may be the pending application); effects of LATER forms cannot run
+		if o, ok := owner[e.Tag]; ok && o > started {
 			return fmt.Sprintf("an effect of top-level form %d happened after the limit tripped inside form %d:\n%s", o, started, render(post, -1))
 		}
 	}
